@@ -81,8 +81,10 @@ func History(r *rand.Rand, p Profile) []Op {
 			ops = append(ops, Op{Kind: "rdone"})
 		case x < 88+p.AckPct:
 			ops = append(ops, Op{Kind: "ack", N: 1 + r.Intn(6)})
-		case x < 97:
+		case x < 95:
 			ops = append(ops, Op{Kind: "counters"})
+		case x < 97:
+			ops = append(ops, Op{Kind: "ackbad", N: r.Intn(5)})
 		default:
 			if p.Reopen {
 				ops = append(ops, Op{Kind: "reopen"})
